@@ -3,29 +3,36 @@
    commutative ring (Leibniz equality); shapes, offsets and coordinates over all of Z. *)
 From LV Require Import Model.Field Proofs.ExtentP Proofs.FieldP Lib.Instances.
 
-(* product of two fields = pointwise product of their embeddings (a one-element operand being
-   an infinite constant), whenever at least one operand has more than one element *)
+(* product of two fields = pointwise product of their embeddings, a 0-d operand (numpy shape ()) being an
+   infinite constant and every array operand - a 1x1 array included - its zero-padded embedding
+   ([embed_const f = if f is 0-d then its value else embed f]), whenever at least one operand is an array *)
 Theorem C06_product_is_product_of_embeddings :
   forall (S : Scalar), is_ring S -> forall (a b : field S) (r c : Z), fvalid S a -> fvalid S b ->
-  (dsize (fd a) =? 1) && (dsize (fd b) =? 1) = false ->
+  is0d (fd a) && is0d (fd b) = false ->
   embed_opt (fmul a b) r c = (embed_const a r c * embed_const b r c)%K.
 Proof. exact fmul_embed. Qed.
 Print Assumptions C06_product_is_product_of_embeddings.
 
-(* two one-element operands with equal offsets: the one-element constant product *)
+(* in particular an array with a single element is a single sample, not a constant *)
+Theorem C06_one_element_array_is_one_sample :
+  forall (S : Scalar) (f : field S) (r c : Z), is0d (fd f) = false -> embed_const f r c = embed f r c.
+Proof. exact embed_const_sized. Qed.
+Print Assumptions C06_one_element_array_is_one_sample.
+
+(* two 0-d operands with equal offsets: the 0-d constant product *)
 Theorem C06_product_of_constants :
-  forall (S : Scalar) (a b : field S), fvalid S a -> fvalid S b ->
-  (dsize (fd a) =? 1) = true -> (dsize (fd b) =? 1) = true -> offr a = offr b -> offc a = offc b ->
-  exists p, fmul a b = Some p /\ dsize (fd p) = 1 /\
+  forall (S : Scalar) (a b : field S),
+  is0d (fd a) = true -> is0d (fd b) = true -> offr a = offr b -> offc a = offc b ->
+  exists p, fmul a b = Some p /\ is0d (fd p) = true /\
             dget (fd p) 0 0 = (dget (fd a) 0 0 * dget (fd b) 0 0)%K /\ offr p = offr a /\ offc p = offc a.
 Proof. exact mul_scalar_equal_offsets. Qed.
 Print Assumptions C06_product_of_constants.
 
-(* the full statement fails for one-element operands with unequal offsets (known finding
-   C06-scalar-scalar-offsets): the model, like the code, returns the empty field *)
+(* the full statement fails for 0-d operands with unequal offsets (known finding
+   C06-scalar-scalar-offsets, pinned by tests/test_field.py): the model, like the code, returns the empty field *)
 Theorem C06_product_of_constants_unequal_offsets_refuted :
   forall (S : Scalar) (a b : field S),
-  (dsize (fd a) =? 1) = true -> (dsize (fd b) =? 1) = true -> (offr a <> offr b \/ offc a <> offc b) ->
+  is0d (fd a) = true -> is0d (fd b) = true -> (offr a <> offr b \/ offc a <> offc b) ->
   fmul a b = None.
 Proof. exact mul_scalar_unequal_offsets_empty. Qed.
 Print Assumptions C06_product_of_constants_unequal_offsets_refuted.
@@ -119,8 +126,13 @@ Definition exB : field ZS := mkField (D2 (@mkArr ZS 3 2 (fun i j => 10 + i * 2 +
 Definition exC : field ZS := mkField (D2 (@mkArr ZS 1 1 (fun _ _ => 7))) (-4) 5 [].
 Example C06_nonvacuous :
   fvalid ZS exA /\ fvalid ZS exB /\ fbounded ZS exA /\
-  (dsize (fd exA) =? 1) && (dsize (fd exB) =? 1) = false /\
+  is0d (fd exA) && is0d (fd exB) = false /\
   embed_opt (fmul exA exB) 1 0 = 6 * 11 /\ embed_opt (fmul exA exB) 0 0 = 0 /\
+  (* a 1x1 array is one sample: times exA it leaves the single product sample, nothing is broadcast *)
+  embed_opt (fmul (mkField (D2 (@mkArr ZS 1 1 (fun _ _ => 7))) 1 0 []) exA) 1 0 = 7 * 6 /\
+  embed_opt (fmul (mkField (D2 (@mkArr ZS 1 1 (fun _ _ => 7))) 1 0 []) exA) 0 0 = 0 /\
+  (* 0-d data is a constant: times exA it scales every sample *)
+  embed_opt (fmul (mkField (D0 (7 : ZS)) 0 0 []) exA) 0 (-2) = 7 * 1 /\
   length (reduce [exA; exB; exC]) = 2%nat /\
   (match insert (fun x => x) exA (@mkArr ZS 2 2 (fun _ _ => 100)) 1 with
    | Ok o => get o 1 0 = 102 /\ get o 0 0 = 100 | Err _ => False end).
